@@ -21,15 +21,15 @@ PROPS["C15"] = {
         Job("parse", "H_rawtext", "0..4", workers=8),
         Job("parse", "H_rawtextBytes", "1..3", workers=8),
         Job("soyhtml", "H_textlex", "0..3,0..2", workers=16, maxfan=16),
-        Job("soyhtml", "H_textlex", "0..2,3..10", workers=16, maxfan=16, note="after commands holding comments"),
+        Job("soyhtml", "H_textlex", "0..2,3..11", workers=16, maxfan=16, note="after commands holding comments"),
         Job("soyhtml", "H_textlex", "3..4,10", workers=16, maxfan=16, note="message text"),
         Job("soyhtml", "H_literal", "0..3", workers=8, maxfan=16),
         Job("parse", "H_rawtext", "5", tier="thorough", workers=16),
         Job("soyhtml", "H_textlex", "4,0..2", tier="thorough", workers=16, maxfan=16),
         Job("soyhtml", "H_textlex", "5,0", tier="thorough", workers=16, maxfan=16),
-        Job("soyhtml", "H_textlex", "3,3..10", tier="thorough", workers=16, maxfan=16, note="after commands holding comments"),
+        Job("soyhtml", "H_textlex", "3,3..11", tier="thorough", workers=16, maxfan=16, note="after commands holding comments"),
     ],
-    "bounds_quick": "rawtext(s,trimBefore,trimAfter) vs the line-joining rule: every ASCII string (bytes 1..127) of length <= 4 with both flags symbolic; order-preservation of non-whitespace bytes over all 256 byte values for length <= 3; the whole chain lexer -> text/comment tokens -> rawtext -> render for every template body of <= 3 characters over {a < > space LF CR / * :} between prints, at template start and at template end, and (<= 2 characters; thorough 3) after 7 commands that hold comments of their own (between call params, before a switch case, inside if/foreach/let/param blocks), and as the text of a message (<= 4 characters: tags become placeholders and are written back unchanged) (comment-free: exact output; with comments: exactly the non-whitespace characters outside comments; unclosed block comment: error); literal blocks of <= 3 characters over {a space { } LF CR TAB / < *} and all special-character commands",
+    "bounds_quick": "rawtext(s,trimBefore,trimAfter) vs the line-joining rule: every ASCII string (bytes 1..127) of length <= 4 with both flags symbolic; order-preservation of non-whitespace bytes over all 256 byte values for length <= 3; the whole chain lexer -> text/comment tokens -> rawtext -> render for every template body of <= 3 characters over {a < > space LF CR / * :} between prints, at template start and at template end, and (<= 2 characters; thorough 3) after 7 commands that hold comments of their own (between call params, before a switch case, inside if/foreach/let/param blocks), directly after a header param declaration, and as the text of a message (<= 4 characters: tags become placeholders and are written back unchanged) (comment-free: exact output; with comments: exactly the non-whitespace characters outside comments; unclosed block comment: error); literal blocks of <= 3 characters over {a space { } LF CR TAB / < *} and all special-character commands",
     "bounds_thorough": "as quick, ASCII length <= 5; template bodies of 4 characters in all contexts and 5 between prints",
     "outside": "longer text runs",
     "assumptions": ["refRawtext (harness) is the statement's rule written over maximal whitespace runs"],
@@ -60,13 +60,13 @@ PROPS["C03"] = {
 # ---------------------------------------------------------------- C12
 PROPS["C12"] = {
     "jobs": [
-        Job("soyhtml", "H_fault", "0..12,0..3,0", workers=16),
-        Job("soyhtml", "H_fault", "0..12,0..1,1", workers=16),
-        Job("soyhtml", "H_fault", "0..12,0..3,2..3", workers=16, maxfan=300),
+        Job("soyhtml", "H_fault", "0..14,0..3,0", workers=16),
+        Job("soyhtml", "H_fault", "0..14,0..1,1", workers=16),
+        Job("soyhtml", "H_fault", "0..14,0..3,2..3", workers=16, maxfan=300),
         Job("soyhtml", "H_fault", "7..8,4,0..3", workers=8, maxfan=300, note="untranslated plural, n=1"),
-        Job("soyhtml", "H_fault", "0..12,2..3,1", tier="thorough", workers=16),
+        Job("soyhtml", "H_fault", "0..14,2..3,1", tier="thorough", workers=16),
     ],
-    "bounds_quick": "13 templates (incl. a template that calls itself, static-text-only templates, directly and through a call, and a template without output) covering every write site (incl. loops over 9 and 10 items) of the tree walker (raw text, escaped/unescaped print, css, literal, special chars, msg text/html tag/placeholder, plural messages (as the last output and followed by output; source cases and the cases of a translating bundle), let and param content blocks, log, call, data=all call, foreach, switch; the msg template also with a translating message bundle) x 4 data strings; four writer models: sticky failure from a symbolically chosen Write call, the same with a symbolic accepted prefix of the failing call (2 data strings), a writer with a symbolic byte capacity that still accepts empty writes once full, and a transient failure of exactly one symbolically chosen call",
+    "bounds_quick": "15 templates (incl. prints ending in each encoding directive, a template that calls itself, static-text-only templates, directly and through a call, and a template without output) covering every write site (incl. loops over 9 and 10 items) of the tree walker (raw text, escaped/unescaped print, css, literal, special chars, msg text/html tag/placeholder, plural messages (as the last output and followed by output; source cases and the cases of a translating bundle), let and param content blocks, log, call, data=all call, foreach, switch; the msg template also with a translating message bundle) x 4 data strings; four writer models: sticky failure from a symbolically chosen Write call, the same with a symbolic accepted prefix of the failing call (2 data strings), a writer with a symbolic byte capacity that still accepts empty writes once full, and a transient failure of exactly one symbolically chosen call",
     "bounds_thorough": "short writes for all 4 data strings",
     "outside": "templates other than the listed ones; writers that fail and later recover",
     "assumptions": ["writer models as listed in bounds; a write that fails accepts a prefix of its argument"],
@@ -78,17 +78,17 @@ PROPS["C12"] = {
 def parse_jobs():
     return [
         Job("parse", "H_validFile", "", workers=1),
-        Job("parse", "H_parseCtx", "0..77,0..1,false", workers=16, maxsteps=300000),
+        Job("parse", "H_parseCtx", "0..81,0..1,false", workers=16, maxsteps=300000),
         Job("parse", "H_exprCtx", "0..21,0..2,false", workers=16, maxsteps=300000),
-        Job("parse", "H_parseCtx", "0..77,2,false", workers=16, maxsteps=300000, note="k=2"),
+        Job("parse", "H_parseCtx", "0..81,2,false", workers=16, maxsteps=300000, note="k=2"),
         Job("parse", "H_prefix", "0..738,0", workers=16, maxsteps=600000, note="every prefix"),
         Job("parse", "H_linear", "0..21", workers=16, maxsteps=80000000, note="steps for 2k vs k repeated units"),
         Job("parse", "H_prefix", "0..738,1", tier="thorough", workers=16, maxsteps=600000, note="every prefix + 1 symbolic byte"),
-        Job("parse", "H_parseCtx", "0..77,3,true", tier="thorough", workers=16, maxsteps=300000, note="k=3 ascii"),
+        Job("parse", "H_parseCtx", "0..81,3,true", tier="thorough", workers=16, maxsteps=300000, note="k=3 ascii"),
         Job("parse", "H_exprCtx", "0..21,3,true", tier="thorough", workers=16, maxsteps=300000, note="k=3 ascii"),
     ]
 
-PARSE_BOUNDS_Q = "parse.SoyFile on 78 concrete lexer/parser contexts (incl. every quoted attribute value, empty values included) followed by k <= 2 symbolic bytes (all 256 values); a doubling test of the step count on 22 repeating units (400 vs 800 repetitions); parse.Expr on 22 contexts with k <= 2; every prefix of a 738-byte valid file using every command; step bound 300000 (600000 for prefixes) SSA instructions per path acts as the unwinding assertion"
+PARSE_BOUNDS_Q = "parse.SoyFile on 82 concrete lexer/parser contexts (incl. every quoted attribute value, empty values included) followed by k <= 2 symbolic bytes (all 256 values); a doubling test of the step count on 22 repeating units (400 vs 800 repetitions); parse.Expr on 22 contexts with k <= 2; every prefix of a 738-byte valid file using every command; step bound 300000 (600000 for prefixes) SSA instructions per path acts as the unwinding assertion"
 PARSE_BOUNDS_T = PARSE_BOUNDS_Q + "; thorough adds k = 3 over ASCII for all contexts and every prefix + 1 symbolic byte"
 
 PROPS["C05"] = {
@@ -117,7 +117,7 @@ PROPS["C10"] = {
         Job("soymsg", "H_fp", "0..25", workers=8, qtimeout=3000, allow_inconclusive=True),
         Job("soymsg", "H_id", "0..4,0..2", workers=8, qtimeout=3000, allow_inconclusive=True),
         Job("soymsg", "H_idMeaning", "0..7,0..2", workers=8, qtimeout=3000, allow_inconclusive=True),
-        Job("soymsg", "H_names", "0..13,-1..3", workers=16),
+        Job("soymsg", "H_names", "0..15,-1..3", workers=16),
         Job(".", "H_compileRace", "0,0", workers=2, note="ids of two concurrent compilations"),
         Job(".", "H_compileRace", "0,7", workers=2, note="ids of two concurrent compilations"),
         Job("soymsg", "H_baseName", "1..6", workers=16, maxfan=16),
@@ -126,7 +126,7 @@ PROPS["C10"] = {
         Job("soymsg", "H_fp", "26..40", tier="thorough", workers=8, qtimeout=3000, allow_inconclusive=True, note="3 blocks"),
         Job("soymsg", "H_id", "5..13,0..3", tier="thorough", workers=8, qtimeout=3000, allow_inconclusive=True, note="longer text"),
     ],
-    "bounds_quick": "fingerprint vs the official algorithm for every byte string of each length 0..25 (0, 1 and 2 twelve-byte blocks, every tail length); calcID with symbolic text (<= 4 bytes), description (2 bytes, two independent copies) and meaning (<= 2 bytes); the id of 8 structured messages (placeholders, html tags, plural) with a symbolic meaning (<= 2 bytes) and description against the official id of their placeholder string; base-name derivation (toUpperUnderscore and genBasePlaceholderName) for every identifier of <= 6 characters over the whole identifier alphabet (symbolic bytes; the five regular expressions run through the engine's regexp matcher) against a regexp-free reference; the base name of html tags (<n>, </n>, <n/>, <n x=..>) whose name is <= 3 characters over {a,b,i,p,Z,1,-,:,_,space} (pretty names, names ending at the first non-alphanumeric); the id/placeholder pass (parsepasses.ProcessMessages) on a message placed in 14 containers (if/elseif/else, switch cases, foreach/ifempty, for, let content, call param content - also nested -, log) against the same message at top level; message ids and placeholder names computed by two compilations running at once (happens-before check of every heap access, both run-queue disciplines) equal those computed alone; placeholder naming for a dictionary of 14 messages (incl. one expression under different directives / directive arguments / access styles and link tags differing in an attribute) under an arbitrary iteration order of each of the 4 map loops of setPlaceholderNames, one loop at a time",
+    "bounds_quick": "fingerprint vs the official algorithm for every byte string of each length 0..25 (0, 1 and 2 twelve-byte blocks, every tail length); calcID with symbolic text (<= 4 bytes), description (2 bytes, two independent copies) and meaning (<= 2 bytes); the id of 8 structured messages (placeholders, html tags, plural) with a symbolic meaning (<= 2 bytes) and description against the official id of their placeholder string; base-name derivation (toUpperUnderscore and genBasePlaceholderName) for every identifier of <= 6 characters over the whole identifier alphabet (symbolic bytes; the five regular expressions run through the engine's regexp matcher) against a regexp-free reference; the base name of html tags (<n>, </n>, <n/>, <n x=..>) whose name is <= 3 characters over {a,b,i,p,Z,1,-,:,_,space} (pretty names, names ending at the first non-alphanumeric); the id/placeholder pass (parsepasses.ProcessMessages) on a message placed in 14 containers (if/elseif/else, switch cases, foreach/ifempty, for, let content, call param content - also nested -, log) against the same message at top level; message ids and placeholder names computed by two compilations running at once (happens-before check of every heap access, both run-queue disciplines) equal those computed alone; placeholder naming for a dictionary of 16 messages (five with their official placeholder string pinned, incl. text where '<' does not begin a tag) (incl. one expression under different directives / directive arguments / access styles and link tags differing in an attribute) under an arbitrary iteration order of each of the 4 map loops of setPlaceholderNames, one loop at a time",
     "bounds_thorough": "fingerprint lengths up to 40; text up to 13 bytes, meaning up to 3",
     "outside": "strings longer than the bound; collision-freeness (a 63-bit id cannot be injective); the branch hi==0 && lo in {0,1} is a hash pre-image question: explored under a 3 s query timeout and counted as inconclusive when the solver gives up; several map loops permuted at once (only one loop's order influences the result, shown per loop); across-process stability follows from calcID reading nothing but the node",
     "assumptions": ["refFingerprint/refID/refNames (harness) are transliterations of the official SoyMsgIdComputer and MsgNode.genSubstUnitInfo; refID is validated on every run against the official ids pinned in soy's tests"],
@@ -263,8 +263,8 @@ PROPS["C13"] = {
         Job("soyjs", "H_jsPure", "0..2,true", workers=2, note="repeated generation from one registry"),
         Job("soyjs", "H_jsAfterFailure", "0..2,0..2,false", workers=4, note="generation after a failed generation"),
         Job("soyjs", "H_jsAfterFailure", "0..2,0..2,true", workers=4, note="generation after a failed generation"),
-        Job("soyjs", "H_jsOrder", "0..2,-1..3,false", workers=8, timeout=300),
-        Job("soyjs", "H_jsOrder", "0..2,-1..3,true", workers=8, timeout=300),
+        Job("soyjs", "H_jsOrder", "0..4,-1..3,false", workers=8, timeout=300),
+        Job("soyjs", "H_jsOrder", "0..4,-1..3,true", workers=8, timeout=300),
         Job(".", "H_bundle", "0..15,0", workers=8, timeout=400, per_map_site=r"^(ast|data|parse|parsepasses|soyhtml|soyjs|soymsg|template|bundle|globals)"),
         Job(".", "H_bundle", "0..15,1..5", workers=8, timeout=400, note="file insertion orders"),
     ],
@@ -305,9 +305,9 @@ PROPS["C19"] = {
         Job("soyhtml", "H_rendererrKinds", "1..2,0..7", workers=8),
         Job("soyhtml", "H_rendererrMsg", "4,false", workers=4),
         Job("soyhtml", "H_rendererrMsg", "4,true", workers=4),
-        Job("parse", "H_parseCtx", "0..77,0..1,false", workers=16, maxsteps=300000),
+        Job("parse", "H_parseCtx", "0..81,0..1,false", workers=16, maxsteps=300000),
         Job("parse", "H_exprCtx", "0..21,0..1,false", workers=16, maxsteps=300000),
-        Job("parse", "H_parseCtx", "0..77,2,false", tier="thorough", workers=16, maxsteps=300000, note="k=2"),
+        Job("parse", "H_parseCtx", "0..81,2,false", tier="thorough", workers=16, maxsteps=300000, note="k=2"),
         Job("parse", "H_errpos", "0..11,0..2,7", tier="thorough", workers=16, note="7 lines"),
     ],
     "bounds": "parse errors: 12 fault kinds injected on a symbolically chosen line of a 4-line (thorough 7) template body with LF, CRLF and blank-line separators: file name, exact line (point faults) or line within [construct start, end of input] (constructs left open), same numbers in the message text; on the C05 context harnesses (arbitrary symbolic bytes) every parse error carries the given file name and a line within 1..1+count(LF). Render errors: failing command on a symbolically chosen line at call depth 0..2 across two files (in different namespaces and in one shared namespace); render errors of 8 kinds (undefined value, directive / function given a wrong argument, user function panicking with an error value, arithmetic error, unknown directive, failing condition, non-list loop) one and two calls deep in another file; render errors raised inside a {msg} (from the source and through a translating catalogue) whose message also occurs, and renders, in a called template before and after; render errors caused by a write failure at a symbolically chosen write of a 3-line template",
@@ -375,6 +375,7 @@ PROPS["C02"] = {
         Job("soyhtml", "H_programBlocks", "2,3", workers=16, timeout=900),
         Job("soyhtml", "H_forRange", "1..3", workers=16),
         Job("soyhtml", "H_callNames", "0..7", workers=8),
+        Job("soyhtml", "H_switchLit", "0..8", workers=8),
         Job("soyhtml", "H_programBlocks", "3,4", tier="thorough", workers=16, timeout=3000),
         Job("soyhtml", "H_program", "2,3,1", tier="thorough", workers=16, timeout=5000),
     ],
@@ -397,13 +398,13 @@ PROPS["C07"] = {
         Job("soyhtml", "H_datarefsBind", "2,4,false,false", tier="thorough", workers=16, timeout=3000),
         Job("soyhtml", "H_datarefsBind", "2,4,true,false", tier="thorough", workers=16, timeout=3000),
         Job("soyhtml", "H_bothParamStyles", "0..2", workers=2),
-        Job(".", "H_recompile", "0..9", workers=4),
+        Job(".", "H_recompile", "0..13", workers=4),
         Job("soyhtml", "H_datarefs", "1,2,false,true", tier="thorough", workers=16, timeout=3000),
         Job("soyhtml", "H_datarefsLate", "1,2,2", tier="thorough", workers=16, timeout=3000),
         Job("soyhtml", "H_datarefs", "2,2,true,false", tier="thorough", workers=16, timeout=3000),
         Job("soyhtml", "H_datarefs", "2,2,false,false", tier="thorough", workers=16, timeout=3000),
     ],
-    "bounds_quick": "bundles generated around binding structure: a template with params l, m and (by configuration) a / optional b, a body of at most 2 generated nodes up to nesting depth 2 among print ($a,$b,$c,$i,$ij.x), let value / let content (names a, c, ij), if, foreach, call (existing callee with optional params, callee with a required param, missing callee; data none/all/$m; param k, undeclared zz, required q; value or content param) plus a fixed trailer; the soydoc of the callee with a required param lists it before or after the optional one (a choice); a second generator profile restricted to binding structure (print, let value, let content, if, foreach; lets may be named like the loop variable) with 3 nodes, with and without the params a and b declared (so that every declared name can be used within the budget); CheckDataRefs accepts exactly the bundles the declarative rule set accepts; for accepted bundles a render with every declared param supplied triggers the lookup observer (hook) only for optional params a callee was not passed; the same bundles followed or preceded by a template with an unused param (state carried from one template's check to the next); both-param-styles rule on 3 concrete templates; 10 bundles with header or soydoc params, incl. templates without a soydoc comment after a documented one (valid, or with one rule broken), compiled repeatedly through one Bundle value",
+    "bounds_quick": "bundles generated around binding structure: a template with params l, m and (by configuration) a / optional b, a body of at most 2 generated nodes up to nesting depth 2 among print ($a,$b,$c,$i,$ij.x), let value / let content (names a, c, ij), if, foreach, call (existing callee with optional params, callee with a required param, missing callee; data none/all/$m; param k, undeclared zz, required q; value or content param) plus a fixed trailer; the soydoc of the callee with a required param lists it before or after the optional one (a choice); a second generator profile restricted to binding structure (print, let value, let content, if, foreach; lets may be named like the loop variable) with 3 nodes, with and without the params a and b declared (so that every declared name can be used within the budget); CheckDataRefs accepts exactly the bundles the declarative rule set accepts; for accepted bundles a render with every declared param supplied triggers the lookup observer (hook) only for optional params a callee was not passed; the same bundles followed or preceded by a template with an unused param (state carried from one template's check to the next); both-param-styles rule on 3 concrete templates; 14 bundles with header or soydoc params, calls through an alias into a namespace and a sub-namespace (required / undeclared params of the aliased callee), incl. templates without a soydoc comment after a documented one (valid, or with one rule broken), compiled repeatedly through one Bundle value",
     "bounds_thorough": "the other param-declaration configurations; binding-structure profile with 4 nodes. (3 nodes of the full grammar were tried: > 2.4 million paths, not finished in 50 min, not registered.)",
     "outside": "bundles beyond the size bound; {msg} bodies; several files/namespaces (the rules are per template and callee lookup is by qualified name)",
     "assumptions": ["c07Check (harness) is a declarative transcription of the rules in the property statement: references resolve to the innermost enclosing let defined earlier, a loop variable inside its loop, a declared param, or $ij; data=\"all\" forwards params (never lets) and counts as their use"],
@@ -416,6 +417,7 @@ PROPS["C11"] = {
     "jobs": [
         Job("soymsg/pomsg", "H_roundtrip", "0..9,0..3,0..2", workers=16, timeout=900),
         Job("soymsg/pomsg", "H_plural", "1..3", workers=8, timeout=600),
+        Job("soymsg/pomsg", "H_pluralCases", "0..4", workers=8, timeout=600),
         Job("soymsg/pomsg", "H_catalogue", "0..3", workers=8, timeout=600),
         Job("soymsg/pomsg", "H_sameID", "0..2", workers=8, timeout=600),
         Job("soymsg/pomsg", "H_distinctIDs", "1..37", workers=8, timeout=600),
